@@ -121,8 +121,15 @@ def gen(rng, tier):
       alias = rng.choice(['m', 'mod', 'mod2', 'zz']) if form.endswith('_as') \
           else None
       imp = {'form': form, 'module': module, 'alias': alias}
-      if bound_name(imp) in names or bound_name(imp) == 'gin':
+      if bound_name(imp) == 'gin':
         continue
+      if bound_name(imp) in names:
+        # only plain `import a.b.c` statements may share their bound name (the
+        # top-level package), as in Python
+        if form != 'import' or any(bound_name(i) == bound_name(imp) and
+                                   i['form'] != 'import' for i in imports) or \
+            imp in imports:
+          continue
       names.add(bound_name(imp))
       imports.append(imp)
     if not imports:
